@@ -30,7 +30,8 @@ var (
 	atNames = [][]string{ch("x"), ch("y"), ch("id")}
 	spaces  = [][]string{{}, {}, uriU1, uriU2}
 	texts   = [][]string{ch("1"), ch("2"), ch("10"), ch("9"), ch("1.5"), ch("0.25"), ch("-3"), {"sp", "2", "sp"}, ch("abc"), ch("a"), {},
-		{"a", "sp", "sp", "b"}, {"w2", "a"}, {"w3"}, {"w4", "b"}, {"nl", "a", "tab"}, {"nbsp", "1"}, ch("1e2"), ch("+1"), ch("Infinity"), ch("NaN"), ch("0"), ch("-0"), ch(".5"), ch("5.")}
+		{"a", "sp", "sp", "b"}, {"w2", "a"}, {"w3"}, {"w4", "b"}, {"nl", "a", "tab"}, {"nbsp", "1"}, ch("1e2"), ch("+1"), ch("Infinity"), ch("NaN"), ch("0"), ch("-0"), ch(".5"), ch("5."),
+		ch("0.1"), ch("0.2"), ch("19.99")} // decimal fractions that are not doubles: their sums depend on the order of addition
 	langs = [][]string{ch("en"), ch("EN"), ch("en-US"), ch("en-us"), ch("fr"), ch("e"), {}, ch("en-GB-x")}
 )
 
